@@ -238,9 +238,12 @@ def check(ctx, run):
     run.rule("R4", "PARTITION: the character classifiers the case-insensitive checks rely on (isUpper, ToLower) folded for all 256 char values", floor=1, exhaustive=True)
     from .shared import char_classifiers
     char_classifiers(prog, run, "R4", which=("isUpper", "ToLower"))
-    run.rule("R6", "STRCMP_CONTAINS / STRCMP_NOCASE_CONTAINS decide through SimpleString::contains -> StrStr: StrStr folded on every haystack over {a,b} up to length 5 x every needle up to length 3 returns the first occurrence or NULL (shared with C13.R5)", floor=1, exhaustive=True)
-    from .C13 import strstr_rule
+    run.rule("R6", "STRCMP_CONTAINS / STRCMP_NOCASE_CONTAINS decide through SimpleString::contains -> StrStr: StrStr folded on every haystack over {a,b} up to length 5 x every needle up to length 3 returns the first occurrence or NULL; equalsNoCase / containsNoCase folded on all pairs over {a, A, b} up to length 2 (shared with C13.R5)", floor=3, exhaustive=True)
+    from .C13 import strstr_rule, string_query_rule
     strstr_rule(prog, run, "R6")
+    # the case-insensitive checks decide through equalsNoCase / containsNoCase: folded on all pairs over {a, A, b} up to length 2
+    string_query_rule(prog, run, "R6", "equalsNoCase", lambda a, b: 1 if a.lower() == b.lower() else 0, "true iff equal up to the case of the letters (a proper prefix is not equal)", maxlen=2, alpha=(97, 65, 98))
+    string_query_rule(prog, run, "R6", "containsNoCase", lambda a, b: 1 if b.lower() in a.lower() else 0, "true iff the argument occurs up to the case of the letters", maxlen=2, alpha=(97, 65, 98))
     # ---------------- R1 ----------------------------------------------------
     fold_assert, TABLE = assert_family(prog, shell)
     found = 0
